@@ -69,6 +69,7 @@ type result struct {
 	isList  bool
 	list    []string
 	echoed  []string // nonces of the notifications that arrived on this request's own SSE answer
+	reused  int      // >0: the filter invocation behind this list answer already served request number `reused`
 	problem string
 }
 
@@ -163,6 +164,13 @@ func (s *server) collect(r *result, marker, echoed int64) {
 	if marker >= 0 {
 		if o := s.bySer(marker); o != nil {
 			l = append(l, o)
+			s.mu.Lock()
+			if prev, dup := s.claimed[marker]; dup && prev != r.spec.N {
+				r.reused = prev
+			} else {
+				s.claimed[marker] = r.spec.N
+			}
+			s.mu.Unlock()
 		} else if r.problem == "" {
 			r.problem = "list answer carries an unknown filter marker"
 		}
@@ -482,6 +490,10 @@ func (s *server) judge(c *hk.Ctx, r *result) (tempSid string, complete bool) {
 	}
 	if r.problem != "" {
 		viol("unanswered", "a request was not processed normally: "+r.problem, nil)
+		return "", false
+	}
+	if r.reused > 0 {
+		viol("filter-result-reused", fmt.Sprintf("the %s answer of request %d was produced by the filter invocation that had already served request %d (the filter was not evaluated for this request)", r.spec.Method, r.spec.N, r.reused), "one filter evaluation per list request")
 		return "", false
 	}
 	// stages: every middleware once, in order, then the method's own stage
